@@ -21,6 +21,122 @@ pub open spec fn defined_in(t: Seq<Vec<String>>, n: Seq<char>) -> bool { exists|
 """
 
 
+def candidates(f):
+    """many macros: a function-like macro falling on the last slot of a 100-entry chunk (with or without the feature's predefined macro) is still expanded"""
+    out = []
+    for pad in (97, 98, 99, 197, 198):
+        src = "".join("#define M%d %d\n" % (i, i) for i in range(pad)) + "#define inc1(a) a+1\n#define inc2(a) a+2\nvoid main() { X = inc1(5); Y = inc2(7); }\n"
+        out.append({"source": src, "args": ["-O0"], "expect": {"panic": False, "stdout_contains": "LDY #9"}, "note": "%d object-like macros, then two function-like ones" % pad})
+        out.append({"source": src, "args": ["-O0"], "expect": {"panic": False, "stdout_contains": "LDX #6"}, "note": "%d object-like macros, then two function-like ones" % pad})
+    return out
+
+
+DEF_SPECS = """
+// ---- define / define_ex: the four chunked tables stay in step, and every chunk's RegexSet is built from that chunk's current patterns ------------------
+pub mod define_part {
+use super::*;
+#[derive(Debug)]
+pub struct Error { pub e: u8 }
+// R6 shims of the regex crate's types: what they were built from (ghost)
+pub struct Regex { pub pat: Ghost<Seq<char>> }
+impl Regex { #[verifier::external_body] pub fn new(p: &str) -> (r: Result<Regex, Error>) ensures r is Ok && r->Ok_0.pat@ == p@ { unimplemented!() } }     // A-regex-compiles
+pub struct RegexSet { pub pats: Ghost<Seq<String>> }
+impl RegexSet {
+    #[verifier::external_body] pub fn new(v: &Vec<String>) -> (r: Result<RegexSet, Error>) ensures r is Ok && r->Ok_0.pats@ == v@ { unimplemented!() }
+    #[verifier::external_body] pub fn empty() -> (r: RegexSet) ensures r.pats@ == Seq::<String>::empty() { unimplemented!() }
+}
+#[verifier::external_body] pub fn string_clone(s: &String) -> (r: String) ensures r == *s { s.clone() }
+#[verifier::external_body] pub fn vec_last_vs(v: &Vec<Vec<String>>) -> (r: Option<&Vec<String>>) ensures v@.len() == 0 ==> r is None, v@.len() > 0 ==> r is Some && *r->Some_0 == v@[v@.len() - 1] { v.last() }
+pub struct Context {
+    pub regex_sets: Vec<RegexSet>,
+    pub defs_ex: Vec<Vec<String>>,
+    pub defs_ex_ex: Vec<Vec<String>>,
+    pub regexes: Vec<Vec<(Regex, String)>>,
+}
+pub open spec fn in_step(c: Context, k: int) -> bool {
+    c.regex_sets@[k].pats@ == c.defs_ex_ex@[k]@ && c.defs_ex@[k]@.len() == c.defs_ex_ex@[k]@.len() && c.regexes@[k]@.len() == c.defs_ex@[k]@.len()
+}
+pub open spec fn wf(c: Context) -> bool {
+    c.defs_ex@.len() >= 1 && c.defs_ex_ex@.len() == c.defs_ex@.len() && c.regexes@.len() == c.defs_ex@.len() && c.regex_sets@.len() == c.defs_ex@.len()
+    && forall|k: int| 0 <= k < c.defs_ex@.len() ==> #[trigger] in_step(c, k)
+}
+// the macro (name, pattern, replacement) has been appended to the chunk that was last; the earlier chunks are untouched; a full chunk is followed by a fresh empty one
+pub open spec fn appended(c0: Context, c1: Context, name: String, pattern: Seq<char>, value: String) -> bool {
+    let k = c0.defs_ex@.len() - 1;
+    c1.defs_ex@.len() >= c0.defs_ex@.len()
+    && (forall|a: int| 0 <= a < k ==> #[trigger] c1.defs_ex@[a] == c0.defs_ex@[a] && c1.defs_ex_ex@[a] == c0.defs_ex_ex@[a] && c1.regexes@[a] == c0.regexes@[a])
+    && c1.defs_ex@[k]@ =~= c0.defs_ex@[k]@.push(name)
+    && c1.defs_ex_ex@[k]@.len() == c0.defs_ex_ex@[k]@.len() + 1 && c1.defs_ex_ex@[k]@.subrange(0, c0.defs_ex_ex@[k]@.len() as int) =~= c0.defs_ex_ex@[k]@ && c1.defs_ex_ex@[k]@[c0.defs_ex_ex@[k]@.len() as int]@ == pattern
+    && c1.regexes@[k]@.len() == c0.regexes@[k]@.len() + 1 && c1.regexes@[k]@.subrange(0, c0.regexes@[k]@.len() as int) =~= c0.regexes@[k]@
+    && c1.regexes@[k]@[c0.regexes@[k]@.len() as int].0.pat@ == pattern && c1.regexes@[k]@[c0.regexes@[k]@.len() as int].1 == value
+    && (c1.defs_ex@.len() > c0.defs_ex@.len() ==> c1.defs_ex@.len() == c0.defs_ex@.len() + 1 && c1.defs_ex@[k + 1]@.len() == 0)
+}
+%(fmt)s
+impl Context {
+    // R6: the flat name -> body map `defs` (BTreeMap) is not part of this contract
+    #[verifier::external_body] pub fn defs_insert(&mut self, k: String, v: String)
+        ensures final(self).regex_sets == old(self).regex_sets, final(self).defs_ex == old(self).defs_ex, final(self).defs_ex_ex == old(self).defs_ex_ex, final(self).regexes == old(self).regexes,
+    { unimplemented!() }
+%(fns)s
+}
+} // mod define_part
+"""
+
+
+def build_define(f, cuts):
+    """define / define_ex with the `last_mut()` updates written as pop / push of the last chunk (R18), the builder-style `&mut Self` result dropped"""
+    fm = common.Fmt({"&n": ("str", "&n")})
+    fns = []
+    for name, sig, hdr in (
+        ("define", "pub fn define<N: Into<String>, V: Into<String>>(&mut self, name: N, value: V) -> &mut Self",
+         """pub fn define(&mut self, name: String, value: String)
+        requires wf(*old(self)),
+        ensures wf(*final(self)), //@ C08:define-keeps-regex-sets-in-step
+            appended(*old(self), *final(self), name, "\\\\b"@ + name@ + "\\\\b"@, value), //@ C08:define-appends-the-macro
+"""),
+        ("define_ex", "pub fn define_ex<N: Into<String>>(&mut self, name: N, value: (String, String)) -> &mut Self",
+         """pub fn define_ex(&mut self, name: String, value: (String, String))
+        requires wf(*old(self)),
+        ensures wf(*final(self)), //@ C08:define-ex-keeps-regex-sets-in-step
+            appended(*old(self), *final(self), name, value.0@, value.1), //@ C08:define-ex-appends-the-macro
+""")):
+        c = f.fn(name, within="Context")
+        cuts.append(c)
+        c.sub(r"let n = name\.into\(\);", "let n = name;", "R3 Into<String> at a String argument is the identity", expect=1)
+        c.sub(r"let v = value\.into\(\);", "let v = value;", "R3 Into<String> at a String argument is the identity", expect=(0, 1))
+        c.sub(r"\n\s*self\s*\n(\s*\})\s*\Z", r"\n\1", "R28 builder-style result `self` (&mut Self) dropped: the function is used for its effect", expect=1, flags=0)
+        c.sub(r"self\.defs\.insert\(", "self.defs_insert(", "R6 BTreeMap insert -> stub outside the contract", expect=1)
+        c.sub(r"\b(n|v|value\.0|value\.1)\.clone\(\)", r"string_clone(&\1)", "R11 String::clone -> shim", expect=(0, 6))
+        c.sub(r"Regex::new\(&(\w+(?:\.\d)?)\)", r"Regex::new(\1.as_str())", "R3 explicit &String -> &str", expect=1)
+        c.sub(r"self\.(defs_ex|defs_ex_ex|regexes)\.last_mut\(\)\.unwrap\(\)\.push\(([^;]*)\);", r"{ let mut __c = self.\1.pop().unwrap(); __c.push(\2); self.\1.push(__c); }",
+              "R18 last_mut().unwrap().push(x) -> pop / push of the same chunk with x appended", expect=3)
+        c.sub(r"\*self\.regex_sets\.last_mut\(\)\.unwrap\(\)\s*=\s*RegexSet::new\(self\.defs_ex_ex\.last\(\)\.unwrap\(\)\)\.unwrap\(\);",
+              "{ let __s = RegexSet::new(vec_last_vs(&self.defs_ex_ex).unwrap()).unwrap(); let __o = self.regex_sets.pop(); self.regex_sets.push(__s); }",
+              "R18 *last_mut().unwrap() = v -> pop / push", expect=1)
+        c.sub(r"self\.defs_ex\.last\(\)\.unwrap\(\)\.len\(\)", "vec_last_vs(&self.defs_ex).unwrap().len()", "R18 Vec::last -> shim", expect=1)
+        fm.apply(c)
+        c.set_header(hdr, expect_sig=sig)
+        c.body_start("        let ghost c0 = *self;")
+        # proof hints around the roll-over test (wherever it stands): the state before it is in step chunk by chunk, and so is the state after it
+        c.before(r"^\s*if vec_last_vs\(&self\.defs_ex\)\.unwrap\(\)\.len\(\) >= 100 \{", """        proof {
+            let k = c0.defs_ex@.len() - 1;
+            assert forall|a: int| 0 <= a < self.defs_ex@.len() && self.defs_ex@.len() == c0.defs_ex@.len() implies #[trigger] in_step(*self, a) by {
+                assert(in_step(c0, a));
+                if a < k { assert(self.defs_ex@[a] == c0.defs_ex@[a] && self.defs_ex_ex@[a] == c0.defs_ex_ex@[a] && self.regexes@[a] == c0.regexes@[a] && self.regex_sets@[a] == c0.regex_sets@[a]); }
+            }
+        }
+        let ghost c1 = *self;""")
+        c.after_block(r"^\s*if vec_last_vs\(&self\.defs_ex\)\.unwrap\(\)\.len\(\) >= 100 \{", """
+        proof {
+            let k = c0.defs_ex@.len() - 1;
+            assert forall|a: int| 0 <= a < self.defs_ex@.len() && wf(c1) implies #[trigger] in_step(*self, a) by {
+                if a <= k { assert(in_step(c1, a)); assert(self.defs_ex@[a] == c1.defs_ex@[a] && self.defs_ex_ex@[a] == c1.defs_ex_ex@[a] && self.regexes@[a] == c1.regexes@[a] && self.regex_sets@[a] == c1.regex_sets@[a]); }
+            }
+        }""")
+        fns.append(c.text)
+    return DEF_SPECS % {"fmt": fm.text(), "fns": "\n".join(fns)}
+
+
 def build(repo):
     u = Unit(NAME, TOOL, PROPS, ["src/cpp.rs: Context::undefine (search loops, R8; index expressions of the removals)"],
              assumptions=["only the search and the indices are under contract: the removals themselves (`self.defs_ex[k].remove(i)` …: IndexMut on Vec<Vec<_>>), define/define_ex (last_mut), the BTreeMap `defs`, Regex/RegexSet and replace_all are outside the verifier's subset / are regex-crate semantics",
@@ -90,7 +206,8 @@ impl Context {
     }
 }
 """ % (loops.text, "\n".join(checks))
-    text = common.PRELUDE + common.header_comment(NAME, cuts) + "verus! {\n" + SPECS + fn + common.CANARY + "\n} // verus!\n"
+    defpart = build_define(f, cuts)
+    text = common.PRELUDE + common.header_comment(NAME, cuts) + "verus! {\n" + common.DEC_SPECS + SPECS + fn + defpart + common.CANARY + "\n} // verus!\n"
     u.text[None] = text
     u.rewrites = common.collect_rewrites(cuts)
     u.dropped = ["the removals and the regex-set rebuild themselves (only their index expressions are checked)", "define / define_ex / replace_all / get_macro"]
